@@ -171,6 +171,47 @@ def _rule_shift_pairing(check, repo: Repo) -> None:
     check.extra["shift_chains"] = n
 
 
+def _rule_frequency_dtype(check, repo: Repo) -> None:
+    """R10: the frequency grid of the translation operator (fftfreq values in [−0.5, 0.5)) is never converted to the dtype of the SHIFT vectors: for integer-typed
+    positions (whole-pixel shifts) every frequency truncates to 0, the ramp is all ones and the translation silently returns its input."""
+    PU = "quantem.diffractive_imaging.ptycho_utils"
+    umod, fto = repo.func(f"{PU}:fourier_translation_operator")
+    ps = func_params(fto)
+    pos = ps[0] if ps else "positions"
+    n = 0
+    for c in calls_in(fto):
+        cn = call_name(c) or ""
+        dts = [a for a in list(c.args) + [k.value for k in c.keywords] if isinstance(a, ast.Attribute) and a.attr == "dtype" and dotted(a.value) == pos]
+        if not dts:
+            continue
+        # what is being converted: the receiver (x.to / x.astype / x.type) or the first argument (as_type(x, dt), np.asarray(x, dtype=dt) …)
+        subj = c.func.value if isinstance(c.func, ast.Attribute) and c.func.attr in ("to", "astype", "type") and not cn.startswith(("af.", "np.", "torch.", "xp.")) else (c.args[0] if c.args else None)
+        if subj is None:
+            continue
+        seen, todo, is_freq = set(), [subj], False
+        while todo:
+            e_ = todo.pop()
+            for x in ast.walk(e_):
+                if isinstance(x, ast.Call) and (call_name(x) or "").split(".")[-1] in ("fftfreq", "rfftfreq"):
+                    is_freq = True
+                if isinstance(x, ast.Name) and x.id not in seen:
+                    seen.add(x.id)
+                    todo.extend(d for d in definitions(fto, x.id) if isinstance(d, ast.AST) and d is not c)
+        if not is_freq:
+            continue
+        n += 1
+        check.violated("C16-R10", "fourier_translation_operator: the frequency grid keeps a floating dtype (never the dtype of the shift vectors)",
+                       f"`{unparse(c)[:70]}` converts fftfreq values to `{pos}.dtype`: for integer-typed {pos} they truncate to 0 — the ramp is identically 1, an integer shift "
+                       f"is no longer a circular roll and shifts no longer compose", umod.line(c), definite=True)
+    if n == 0:
+        check.holds("C16-R10", "fourier_translation_operator: the frequency grid keeps a floating dtype (never the dtype of the shift vectors)", where=umod.line(fto))
+    # positive example (the expected count on the unchanged tree is zero)
+    probe = ast.parse("def f(positions, shape):\n    k = np.fft.fftfreq(4)\n    k = af.as_type(k, positions.dtype)\n    return k\n").body[0]
+    hit = [c for c in calls_in(probe) if any(isinstance(a, ast.Attribute) and a.attr == "dtype" and dotted(a.value) == "positions" for a in c.args)]
+    if len(hit) != 1:
+        raise AnalysisError("C16-R10 self-test: the conversion recogniser does not match its positive example")
+
+
 def _rule_back_propagation(check, repo: Repo) -> None:
     """R8: the analytical back-propagation applies the ELEMENT-WISE conjugate of the forward kernel.  The propagator is a multiplier in Fourier
     space (a diagonal operator): its adjoint — and, being unit-modulus, its inverse — is conj(kernel).  `.adjoint()` / `.mH` / `.H` are the conjugate
@@ -215,6 +256,7 @@ def run(check, repo: Repo) -> None:
     propagator_rules(check, repo)
     _rule_back_propagation(check, repo)
     _rule_shift_pairing(check, repo)
+    _rule_frequency_dtype(check, repo)
     _run_rest(check, repo)
 
 
@@ -717,3 +759,4 @@ MANIFEST = {
 MANIFEST["text"] += ' Also: frequency vectors are found by their fftfreq definition (extent and sampling of the same axis through casts/destructuring), each broadcast use lies on its own axis, each tilt component multiplies the frequencies of its own axis; the detector model centres with fftshift over the detector axes (the operator the projection inverts).'
 MANIFEST["text"] += ' R8: ObjectPixelated.backward applies the ELEMENT-WISE conjugate of the forward kernel (conj / conj_physical), never a conjugate transpose (.adjoint() / .mH / .H).'
 MANIFEST["text"] += " R9: in fourier_projection a value that went through fftshift is brought back by ifftshift (and vice versa) — the same shift applied twice along a data-flow chain leaves odd-length axes rolled by one sample."
+MANIFEST["text"] += " R10: the frequency grid of fourier_translation_operator is never converted to the dtype of the shift vectors (integer positions would truncate every frequency to 0); recogniser self-tested on an embedded positive example."
